@@ -208,6 +208,34 @@ def native_replay(replay_bin, requests, timeout=600):
     return out
 
 
+def build_replay_race(tmpdir):
+    out = os.path.join(tmpdir, "replay_race")
+    r = subprocess.run(["go", "build", "-race", "-o", out, "./cmd/replay"], cwd=os.path.join(VERIF, "harness"), env=goenv(), capture_output=True, text=True)
+    if r.returncode != 0:
+        raise RuntimeError("race-enabled replay build failed:\n" + r.stderr)
+    return out
+
+
+def race_replay(race_bin, item, model, loops=400, timeout=120):
+    """Runs one case under the Go race detector; returns a replay result dict."""
+    env = dict(os.environ)
+    env["GORACE"] = "halt_on_error=1 exitcode=66"
+    env["VERIF_PAR_LOOPS"] = str(loops)
+    req = json.dumps({"id": "r", "item": item, "cases": [{"m": model}]}) + "\n"
+    try:
+        p = subprocess.run([race_bin], input=req, capture_output=True, text=True, timeout=timeout, env=env)
+    except subprocess.TimeoutExpired:
+        return {"k": "timeout", "msg": "race replay timeout"}
+    if p.returncode == 66 or "DATA RACE" in p.stderr:
+        lines = [l.strip() for l in p.stderr.splitlines() if l.strip().startswith(("github.com/coregx", "Write at", "Read at", "Previous write", "Previous read"))]
+        return {"k": "fail", "msg": "Go race detector: " + " | ".join(lines[:8])[:600]}
+    try:
+        d = json.loads(p.stdout.splitlines()[0])
+        return d["results"][0]
+    except Exception:
+        return {"k": "error", "msg": p.stderr[-300:]}
+
+
 def item_fields(it):
     return {k: it[k] for k in ITEM_FIELDS if k in it}
 
@@ -267,7 +295,8 @@ def main():
             wargs += ["-overlay", ovf]
         item_timeout = getattr(mod, "ITEM_TIMEOUT", {"quick": 240, "thorough": 1800}).get(args.tier, 240)
         results = run_items(items, args.workers, wargs, item_timeout)
-        rc = finish(prop, args, mod, items, results, replay_bin, known, kmap, t0, seed)
+        race_bin = build_replay_race(tmpdir) if getattr(mod, "RACE_REPLAY", False) else None
+        rc = finish(prop, args, mod, items, results, replay_bin, known, kmap, t0, seed, race_bin)
     finally:
         shutil.rmtree(tmpdir, ignore_errors=True)
     return rc
@@ -279,7 +308,7 @@ def snaps_equal(a, b):
     return a == b
 
 
-def finish(prop, args, mod, items, results, replay_bin, known, kmap, t0, seed):
+def finish(prop, args, mod, items, results, replay_bin, known, kmap, t0, seed, race_bin=None):
     # ---- native replay of sampled paths and of failing paths ----
     reqs = []
     for r in results:
@@ -352,6 +381,8 @@ def finish(prop, args, mod, items, results, replay_bin, known, kmap, t0, seed):
             inconclusive.append({"id": r["id"], "reason": "native replay: " + rr["error"][:300]})
         # sampled paths
         for s, n in zip(r.get("sample", []), nres[:ns]):
+            if race_bin and s["k"] == "fail":
+                continue  # schedule-dependent failure: confirmed separately under the race detector
             if s["k"] == n["k"] and snaps_equal(s.get("s"), n.get("s")):
                 validated += 1
             elif s["k"] == "ok" and n["k"] in ("fail", "panic"):
@@ -363,8 +394,22 @@ def finish(prop, args, mod, items, results, replay_bin, known, kmap, t0, seed):
                 discrepancies.append({"id": r["id"], "model": s["m"], "symbolic": {"k": s["k"], "s": s.get("s")}, "native": {"k": n["k"], "s": n.get("s"), "msg": n.get("msg", "")[:200]}})
         # failing paths
         ks = kmap.get(item_key(it), [])
+        race_budget = 6
         for f, n in zip(r.get("fails", []), nres[ns:]):
             model = f.get("new_model") or f["model"]
+            if f.get("known") == "known" and any(e.get("msgs") for e in ks):
+                # entries that list the accepted failure messages: another message is a different finding
+                if not any(f["msg"] in e.get("msgs", []) for e in ks):
+                    f["known"] = "new"
+            if race_bin and f["msg"].startswith("C06 data race") and f.get("known") != "known" or (race_bin and args.triage is not None and f["msg"].startswith("C06 data race")):
+                key = f["msg"]
+                if key not in r.setdefault("_race_cache", {}):
+                    if race_budget > 0:
+                        race_budget -= 1
+                        r["_race_cache"][key] = race_replay(race_bin, item_fields(it), model)
+                    else:
+                        r["_race_cache"][key] = {"k": "skipped", "msg": "race replay budget exhausted"}
+                n = r["_race_cache"][key]
             if args.triage is not None:
                 triage.append({"key": item_fields(it), "pc": f["pc"], "model": f["model"], "msg": f["msg"], "snaps": f.get("snaps"), "native": n})
             if f.get("known") == "known":
